@@ -648,6 +648,10 @@ func grpcErrorFromTrailer(bufferPool *bufferPool, protobuf Codec, trailer http.H
 	if err != nil {
 		return errorf(CodeInternal, "gRPC protocol error: invalid error code %q", codeHeader)
 	}
+	if code == 0 {
+		// Any decimal spelling of zero ("00", "000") is the OK status.
+		return nil
+	}
 	message := grpcPercentDecode(bufferPool, trailer.Get(grpcHeaderMessage))
 	retErr := NewError(Code(code), errors.New(message))
 
